@@ -681,7 +681,46 @@ func (g *Gen) run(n int) {
 				case 4, 5, 6:
 					g.refsStep()
 				case 7:
-					g.tagsStep()
+					if g.r.Intn(3) == 0 {
+						g.tagsStep()
+						break
+					}
+					if g.r.Intn(2) == 0 {
+						// the pass that empties the index of a repository which still holds a fresh blob: the directory stays, and
+						// with it an index.json that must say what the pass left (nothing)
+						repo := g.pick([]string{"r2", "r1/sub"})
+						g.emit("UPOST " + repo + " digest=sha256:c1 body=c1")
+						name := g.simpleImage(repo)
+						if out := g.emit(fmt.Sprintf("MPUT %s sha256:%s ct=ocim body=%s", repo, name, name)); strings.HasPrefix(out, "201 ") {
+							g.manIn[repo] = append(g.manIn[repo], name)
+							g.manMT[name] = "ocim"
+						}
+						for _, t := range []string{"sha256:c1", "sha256:c2", "sha256:c3", "sha256:" + name} {
+							g.emit("SETTIME " + repo + " " + t + " old")
+						}
+						g.emit("UPOST " + repo + " digest=sha256:l2 body=l2")
+						g.emit("GC " + repo)
+						g.emit("TAGS " + repo)
+						break
+					}
+					// a blob nothing refers to, old, uploaded again through a session (chunked or in the closing PUT) and
+					// collected right away: the acknowledged upload is recent whatever the store did with the bytes it held already
+					repo := "r1"
+					c := g.pick([]string{"l1", "l2", "c3"})
+					g.emit("UPOST " + repo + " digest=sha256:" + c + " body=" + c)
+					g.emit("SETTIME " + repo + " sha256:" + c + " old")
+					if out := g.emit("UPOST " + repo); strings.Contains(out, "loc=session:") {
+						sid := out[strings.Index(out, "loc=session:")+len("loc=session:"):]
+						sid = strings.SplitN(strings.SplitN(sid, "?", 2)[0], ":", 2)[1]
+						if g.r.Intn(2) == 0 {
+							g.emit("UPATCH " + repo + " " + sid + " state=0 body=" + c)
+							g.emit(fmt.Sprintf("UPUT %s %s state=%d digest=sha256:%s", repo, sid, len(g.h.tk.content(c)), c))
+						} else {
+							g.emit("UPUT " + repo + " " + sid + " state=0 digest=sha256:" + c + " body=" + c)
+						}
+					}
+					g.emit("GC " + repo)
+					g.emit("BHEAD " + repo + " sha256:" + c)
 				case 8:
 					// a tagged image with a layer of a media type of its own (non-distributable): uploaded, referenced, retained
 					repo := "r1"
